@@ -56,7 +56,13 @@ def _case(draw, tier):
                                          places=("assert", "var", "module", "helper", "lambda")))
         files.append({"prog": prog, "raise_at_end": draw(st.integers(0, 4)) == 0})
     # the helpers promise to be independent of a CI variable in the calling environment
-    return {"files": files, "F": draw(flag_sets()), "ci_env": draw(st.sampled_from([None, None, "CI", "GITHUB_ACTIONS"]))}
+    # a [tool.black] section that changes how fragments are formatted; consecutive cases of one harness
+    # process run under different options, like a developer's test suite that calls run_inline for several
+    # example projects in one process
+    black_cfg = draw(st.sampled_from([None, None, "skip-string-normalization = true", "line-length = 30",
+                                      "skip-magic-trailing-comma = true\nline-length = 40"]))
+    return {"files": files, "F": draw(flag_sets()), "ci_env": draw(st.sampled_from([None, None, "CI", "GITHUB_ACTIONS"])),
+            "black": black_cfg}
 
 
 def signature(case):
@@ -75,6 +81,13 @@ def render(case):
         if f["raise_at_end"]:
             src += "\ndef test_zz_raises():\n    raise ValueError('boom')\n"
         out[f"test_f{i}.py"] = src
+    if case.get("black"):
+        out["pyproject.toml"] = "[tool.black]\n" + case["black"] + "\n"
+    # the same values in every project: whatever the helpers remember from an earlier project in the same
+    # process (another [tool.black] section) must not leak into this one
+    out["test_common.py"] = ("from inline_snapshot import snapshot\n\n\ndef test_common():\n"
+                             "    assert 'hello world' == snapshot()\n"
+                             "    assert ['aaaaaaaaaaaaaaa', 'bbbbbbbbbbbbbbbbbb', {'k': 'cccccccccccc'}] == snapshot()\n")
     return out
 
 
@@ -130,7 +143,7 @@ def check(case):
         if "INTERNALERROR" in r.stdout or r.returncode not in (0, 1):
             raise Violation("real-session-internal-error", f"F={F} rc={r.returncode}\n{show}\n{r.stdout[-2500:]}\n{r.stderr[-1500:]}")
         changed_r = {k: v.decode("utf-8") for k, v in r.files_after.items()
-                     if k in files and v.decode("utf-8") != files[k]}
+                     if k in files and k.endswith(".py") and v.decode("utf-8") != files[k]}
         d2 = drivers.make_project(files, pyproject=None)
         try:
             r2 = drivers.run_pytest(d2, ["--inline-snapshot=" + ",".join(["report"] + list(F))])
